@@ -1,10 +1,11 @@
 INIT Init
 NEXT XNext
 CONSTANTS
+  U8Complete <- AnySplit
   Alphabet <- UriAlphabet
-  MaxLen = 3
+  MaxLen = 0
   Fns <- UriFns
-  Extra <- NoInputs
+  Extra <- TokInputs2
   KnownLiterals <- KnownLits
 INVARIANT DecodeTotal
 INVARIANT DecodeIdentityOnPlain
@@ -16,4 +17,3 @@ INVARIANT DecodeEncodeId
 INVARIANT EncodedPiecesAreChunks
 INVARIANT CheckEscapedFixpoint
 INVARIANT CheckEscapedConcat
-INVARIANT Emit
